@@ -1136,6 +1136,12 @@ def extract_item(item, meta, mutant=None, twin=False):
     # inserts
     for (where, anchor, k, text) in item.inserts:
         h = select_match(ctoks, anchor, k, f"{item.name} //%{where}")
+        if where == "after" and anchor[0] in ("while", "for") and anchor[-1] not in ("in", "{"):
+            # a loop annotation (invariant / decreases) goes between the loop header and its body: the anchor must cover the
+            # WHOLE header, otherwise the splice would cut the condition in two and the text verified would not be the code
+            nxt = ctoks[h + len(anchor)].text if h + len(anchor) < len(ctoks) else ""
+            if nxt != "{":
+                raise ExtractError(f"lost anchor ({item.name} //%after): loop header changed: {' '.join(anchor)!r} is no longer followed by the loop body")
         if where == "after":
             p = ctoks[h + len(anchor) - 1].end
             ed.replace(p, p, "\n" + text.rstrip() + "\n", "R-ann")
